@@ -76,6 +76,14 @@ def scenarios(tier):
     wc = cfg([b"m0", b"m1", b"m2"], [], fine=(0,), drops=(1, 0), explored=("down", "up", "api", "connect", "drop", "wsclosing"))
     wc["wsclosing"] = True
     S.append(mk("bfs-3+0-fineA-wsclosing-drop1", wc, max_depth=90, max_states=400000))
+    # three (thorough: four) messages one way, the receiver's deliveries explored one by one, any stored message may overtake the ones
+    # queued before it (twice): every arrival order of the numbered phases, including one that leaves two gaps open at once
+    S.append(mk("bfs-0+3-fineA-reorder2", cfg([], [b"p0", b"p1", b"p2"], fine=(0,), reorder=2, explored=("down", "reorder")), max_depth=90, max_states=400000))
+    if True:
+        S.append(mk("bfs-0+4-fineA-reorder3", cfg([], [b"p0", b"p1", b"p2", b"p3"], fine=(0,), reorder=3, explored=("down", "reorder")), max_depth=120,
+                    max_states=2000000))
+        S.append(mk("bfs-0+5-fineA-reorder3-delegate", cfg([], [b"p0", b"p1", b"p2", b"p3", b"p4"], fine=(0,), reorder=3, explored=("down", "reorder"),
+                                                           mode="delegate"), max_depth=140, max_states=2000000))
     if tier == "quick":
         S.append(mk("bfs-2+1-fineA", cfg(A2, B1, fine=(0,)), max_depth=80))
         S.append(mk("bfs-1+2-fineB", cfg(B1, B2, fine=(1,)), max_depth=80))
